@@ -121,7 +121,15 @@ func Interval(interval time.Duration) Observable[int64] {
 // Play: https://go.dev/play/p/Xhi6c336ldy
 func IntervalWithInitial(initial, interval time.Duration) Observable[int64] {
 	return NewObservableWithContext(func(ctx context.Context, destination Observer[int64]) Teardown {
-		ticker := time.NewTicker(initial * 2)
+		// The ticker is re-armed with `interval` once the initial value has been emitted.
+		// NewTicker panics on a non-positive duration: when the first value is immediate
+		// (initial == 0) the ticker starts with `interval` right away.
+		period := initial * 2
+		if initial == 0 {
+			period = interval
+		}
+
+		ticker := time.NewTicker(period)
 		timer := time.NewTimer(initial)
 		done := make(chan struct{}, 1)
 
